@@ -187,7 +187,7 @@ theorem C06_body (hs : List (String × String)) (m : MethodSpec)
     (c : Cooked) (d : PathDir) (subs : List PathSub) (args : Args)
     (ok : MethodOK m) (aok : ArgsOK m args) (h : CookedFor m c d subs) (hv : m.verb.hasBody = true) :
     ∃ r, send (planOf hs m.name c d subs) args = .sent r ∧
-      r.body = (m.params.find? isStructParam).map (·.name) ∧ r.query.getD [] = [] := by
+      r.body = (m.params.find? isStructAny).map (·.name) ∧ r.query.getD [] = [] := by
   obtain ⟨r, h1, _, _, h4, h5, _, _⟩ := send_eq_spec hs m c d subs args ok aok h
   refine ⟨r, h1, ?_, ?_⟩
   · rw [h5]; simp [specBody, hv]
@@ -199,7 +199,7 @@ theorem C06_body_facts (hs : List (String × String)) (m : MethodSpec)
     (c : Cooked) (d : PathDir) (subs : List PathSub) (args : Args)
     (ok : MethodOK m) (aok : ArgsOK m args) (h : CookedFor m c d subs) :
     ∃ r, send (planOf hs m.name c d subs) args = .sent r ∧
-      r.body = (if Facts.restBodyVerbs.contains m.verb.upper then (m.params.find? isStructParam).map (·.name) else none) := by
+      r.body = (if Facts.restBodyVerbs.contains m.verb.upper then (m.params.find? isStructAny).map (·.name) else none) := by
   obtain ⟨r, h1, _, _, _, h5, _, _⟩ := send_eq_spec hs m c d subs args ok aok h
   refine ⟨r, h1, ?_⟩
   rw [h5, specBody, C06_facts_bodyVerbs m.verb]
@@ -237,13 +237,13 @@ theorem C06_one_request (pl : Plan) (args : Args) :
 /-- every method of an interface the driver puts in region WF satisfies `MethodOK` -/
 theorem C06_wf_methodOK (i : IfaceSpec) (calls : List Call) (h : region i calls = "WF")
     (m : MethodSpec) (hm : m ∈ i.methods) : MethodOK m := by
-  obtain ⟨hs, _, htwo, hqual, _, _⟩ := region_wf i calls h
+  obtain ⟨hs, _, htwo, hqual, helse, _, _, _⟩ := region_wf i calls h
   simp only [structOk, shapeOk, Bool.and_eq_true, List.all_eq_true] at hs
   have hmo := hs.1.1.1 m hm
   simp only [methodShapeOk, Bool.and_eq_true, distinct, decide_eq_true_eq, List.all_eq_true,
     Bool.not_eq_true', bne_iff_ne, ne_eq] at hmo
   obtain ⟨⟨⟨⟨⟨⟨⟨⟨⟨⟨hnames, hctx⟩, _⟩, _⟩, hak⟩, _⟩, hav⟩, hclean⟩, hph⟩, hfields⟩, hqb⟩ := hmo
-  refine ⟨hnames, hctx, hak, ?_, ?_, ?_, ?_, ?_, ?_, ?_⟩
+  refine ⟨hnames, hctx, hak, ?_, ?_, ?_, ?_, ?_, ?_, ?_, ?_⟩
   · intro kv hkv; simpa using hav kv hkv
   · -- pathClean gives token cleanliness
     simp only [pathClean, Bool.and_eq_true, List.all_eq_true] at hclean
@@ -269,6 +269,14 @@ theorem C06_wf_methodOK (i : IfaceSpec) (calls : List Call) (h : region i calls 
         simp only [F_qualScalar, List.any_eq_true, Bool.and_eq_true, Bool.not_eq_true']
         exact ⟨m, hm, hv, p, hp, by simp [isQualOther, hk]⟩
       rw [hqual] at this; cases this
+  · intro p hp
+    cases he : isElsewhere p with
+    | false => rfl
+    | true =>
+      have : F_structElsewhere i = true := by
+        simp only [F_structElsewhere, List.any_eq_true]
+        exact ⟨m, hm, p, hp, he⟩
+      rw [helse] at this; cases this
   · intro hv
     cases hl : decide ((m.params.filter isDictParam).length ≥ 2) with
     | false => simp only [decide_eq_false_iff_not] at hl; omega
@@ -282,7 +290,7 @@ theorem C06_wf_methodOK (i : IfaceSpec) (calls : List Call) (h : region i calls 
 theorem C06_wf_argsOK (i : IfaceSpec) (calls : List Call) (h : region i calls = "WF")
     (cl : Call) (hc : cl ∈ calls) (m : MethodSpec) (hm : findMethod i cl.method = some m) :
     ArgsOK m cl.args := by
-  obtain ⟨_, _, _, _, hnil, hbr⟩ := region_wf i calls h
+  obtain ⟨_, _, _, _, _, _, hnil, hbr⟩ := region_wf i calls h
   constructor
   · intro hv p hp hsp hfs v ha
     have : F_nilStructDeref i calls = true := by
@@ -339,6 +347,31 @@ def wQualArgs : Args := [("ctx", .ctx "t"), ("wait", .scalar (.txt "1.5s".toList
 theorem C06_F_qualScalar_witness :
     region wQualS [⟨"A", wQualArgs⟩] = "F_qualScalar" ∧
     (callModel wQualI "A" wQualArgs).isSome = true ∧ callModel wQualI "A" wQualArgs ≠ callSpec wQualS "A" wQualArgs := by
+  decide
+
+/-- Q9: `A(ctx, req Req)` on GET with `type Req struct{ Name string; N int }` declared in another file of
+    the package: one parameter `req={x 7}` instead of `name=x&n=7` -/
+def wElseP : Param := ⟨"req", .structElsewhere [⟨"Name", true, false, ""⟩, ⟨"N", true, false, ""⟩], false⟩
+def wElseI : Iface := ⟨[], [⟨"A", "shoot: Get(\"/a\")\n".toList, [pCtx, wElseP]⟩]⟩
+def wElseS : IfaceSpec := ⟨[], [⟨"A", .get, "/a".toList, [], [pCtx, wElseP]⟩]⟩
+def wElseArgs : Args := [("ctx", .ctx "t"), ("req", .structV false [("Name", .txt ['x']), ("N", .txt ['7'])] "{x 7}".toList)]
+
+theorem C06_F_structElsewhere_witness :
+    region wElseS [⟨"A", wElseArgs⟩] = "F_structElsewhere" ∧
+    callModel wElseI "A" wElseArgs = some (.sent ⟨"GET", "/a".toList, some [("req", "{x 7}".toList)], none,
+      [("Accept", "application/json")], some "t"⟩) ∧
+    callSpec wElseS "A" wElseArgs = some (.sent ⟨"GET", "/a".toList, some [("name", ['x']), ("n", ['7'])], none,
+      [("Accept", "application/json")], some "t"⟩) := by
+  decide
+
+/-- Q10: `//shoot: headers={Accept: */*}`: the client sends `Accept: *` -/
+def wHdrI : Iface := ⟨"shoot: headers={Accept: */*}\n".toList, [⟨"A", "shoot: Delete(\"/a\")\n".toList, []⟩]⟩
+def wHdrS : IfaceSpec := ⟨[("Accept", "*/*")], [⟨"A", .delete, "/a".toList, [], []⟩]⟩
+
+theorem C06_F_headerValue_witness :
+    region wHdrS [⟨"A", []⟩] = "F_headerValue" ∧
+    callModel wHdrI "A" [] = some (.sent ⟨"DELETE", "/a".toList, none, none, [("Accept", "*")], none⟩) ∧
+    callSpec wHdrS "A" [] = some (.sent ⟨"DELETE", "/a".toList, some [], none, [("Accept", "*/*")], none⟩) := by
   decide
 
 /-- Q3: `A(ctx, req *Req)` on GET called with `nil`: panic instead of a request without those fields -/
